@@ -122,6 +122,8 @@ pub struct WorldC {
     /// application reading inputs into a fixed buffer would: consecutive calls see the same
     /// address and (for equal-length inputs) the same length with different content
     io_buf: Vec<u8>,
+    /// half of the runs: every client is its own OS thread (released for one call at a time)
+    pub client_threads: Option<crate::kernel::NodeThreads>,
 }
 
 fn point_bytes(p: &pp::Point) -> [u8; 32] {
@@ -137,7 +139,11 @@ impl WorldC {
     }
 
     pub fn build(ctx: &mut Ctx, cfg: CCfg, netcfg: NetCfg) -> Result<WorldC, Violation> {
-        let mut w = WorldC { sim: Sim::new(30_000), net: Net::new(netcfg), cfg: cfg.clone(), servers: Vec::new(), clients: Vec::new(), next_key_id: 1, state_models: BTreeMap::new(), pool: Vec::new(), io_buf: vec![0u8; 1024] };
+        let mut w = WorldC { sim: Sim::new(30_000), net: Net::new(netcfg), cfg: cfg.clone(), servers: Vec::new(), clients: Vec::new(), next_key_id: 1, state_models: BTreeMap::new(), pool: Vec::new(), io_buf: vec![0u8; 1024], client_threads: None };
+        if ctx.ch.chance(1, 2) {
+            w.client_threads = Some(crate::kernel::NodeThreads::default());
+            ctx.stats.probe("runs_with_one_os_thread_per_client");
+        }
         for s in 0..cfg.n_servers {
             let node = SERVER0 + s as NodeId;
             if s == 0 || !cfg.replicate {
@@ -347,11 +353,20 @@ impl WorldC {
                     let node = self.clients[c].node;
                     let n = input.len().min(self.io_buf.len());
                     self.io_buf[..n].copy_from_slice(&input[..n]);
-                    let (p, r) = {
+                    let (p, r) = if let Some(th) = self.client_threads.as_mut() {
+                        // the client's own OS thread, with 256 bytes of the client's entropy stream
+                        let mut entropy = vec![0u8; 256];
+                        ctx.os.with_node(node as u64, || {
+                            let _ = getrandom::getrandom(&mut entropy);
+                        });
+                        let inp = input.clone();
+                        ctx.stats.probe("blind_calls_on_client_threads");
+                        th.run(node, entropy, move || pp::Client::blind(&inp))
+                    } else {
                         let buf = &self.io_buf[..n];
+                        ctx.stats.probe("blind_calls_on_reused_buffer");
                         ctx.os.with_node(node as u64, || pp::Client::blind(buf))
                     };
-                    ctx.stats.probe("blind_calls_on_reused_buffer");
                     oracle.on_request(ctx, self, c, &input, md, &p)?;
                     let rid = self.clients[c].next_req;
                     self.clients[c].next_req += 1;
